@@ -169,6 +169,15 @@ func (m *cacheModel) opGet(step int, e *Env, key string, fail bool) string {
 		return "failed"
 	}
 	if err != nil {
+		if cerr == nil && x.sim.mode == 'G' && errors.Is(err, errInjected) {
+			// concurrent mode only: this get did not inject a failure itself but came
+			// back with the harness's injected error - it shared the failing load of
+			// an overlapping get of the same key (a single-flight cache may do that;
+			// it is not "remembering": sequential histories stay strict, and a
+			// remembered failure would also show there and in the stored entries)
+			x.countFault("shared-injected-failure")
+			return "failed-shared"
+		}
 		if cerr == nil {
 			x.viol("cache-error", "cache-error:spurious", fmt.Sprintf("get(%q) failed with %v although the pattern loads fine (a failed load was remembered?)", key, err), step)
 		}
@@ -306,6 +315,10 @@ func (m *cacheModel) opRegex(step int, st scn.Step, owner int32) string {
 			x.viol("no-progress", "no-progress:compile", fmt.Sprintf("Compile(%q): %s", text, co.Key()), step)
 			return "abort"
 		}
+		if x.sim.mode == 'G' && strings.Contains(co.V, errInjected.Error()) {
+			x.countFault("shared-injected-failure")
+			return "failed-shared" // shared the failing load of an overlapping operation (see opGet)
+		}
 		x.viol("regex-compile", "regex-compile", fmt.Sprintf("Compile(%q) failed: %s", text, co.V), step)
 		return "cerr"
 	}
@@ -322,6 +335,10 @@ func (m *cacheModel) opRegex(step int, st scn.Step, owner int32) string {
 		}
 		x.viol(kind, kind+":regex", fmt.Sprintf("Evaluate(%q): %s", text, got.Key()), step)
 		return "abort"
+	}
+	if x.sim.mode == 'G' && (got.Kind == "perr") && strings.Contains(got.V, errInjected.Error()) {
+		x.countFault("shared-injected-failure")
+		return "failed-shared"
 	}
 	if cerr != nil {
 		// pattern invalid and only known at run time (or replace): the statement
